@@ -20,6 +20,7 @@ REGISTRY = {
     "C14": _lazy("dbc_checks", "run_c14"),
     "C03": _lazy("cxx_checks", "run_c03"),
     "C18": _lazy("can_checks", "run_c18"),
+    "C13": _lazy("dyn_checks", "run_c13"),
     "C06": _lazy("native_checks", "run_c06"),
     "C19": _lazy("native_checks", "run_c19"),
     "C08": _lazy("parser_checks", "run_c08"),
